@@ -14,6 +14,13 @@
  * exactly.  After every step the driver prints {held,pid,in_callback,lock_count,accessing set};
  * the extracted model prints the same.
  *
+ * 'E(calls)' at call level is a call of the REAL public API function coap_handle_event() on a real
+ * context: its COAP_API wrapper takes the lock, coap_handle_event_lkd() invokes the registered
+ * event handler through coap_lock_callback_ret, the handler runs <calls>; it corresponds to
+ * C(K(calls)) in the model.  The two places inside the library where no driver code runs between
+ * two primitives (lock -> in_callback++, in_callback-- -> unlock) get their scheduling points
+ * from ld --wrap of coap_lock_lock_func / coap_lock_unlock_func (one-shot flags).
+ *
  * case:  lk <n> <prog_1> .. <prog_n> <sched>
  *        probe                     -> supported=<coap_threadsafe_is_supported()> macro=<COAP_THREAD_SAFE as #if>
  */
@@ -29,6 +36,18 @@
 #define LK_ON 1
 #else
 #define LK_ON 0
+#endif
+
+#ifdef LK_STANDALONE_RC
+/* The COAP_THREAD_RECURSIVE_CHECK variant of the lock code (what the autoconf build enables by
+ * default): built with -DCOAP_THREAD_RECURSIVE_CHECK=1 -DLK_STANDALONE_RC, src/coap_threadsafe.c
+ * is compiled into this driver and nothing else of libcoap is needed. */
+#include <stdarg.h>
+#include "coap_threadsafe.c"
+coap_lock_t global_lock;
+int coap_started = 1;
+coap_log_t coap_get_log_level(void) { return COAP_LOG_EMERG; }
+void coap_log_impl(coap_log_t level, const char *format, ...) { (void)level; (void)format; }
 #endif
 
 #define MAXT 16
@@ -104,6 +123,56 @@ int __wrap_pthread_mutex_unlock(pthread_mutex_t *m) {
 
 static void gate(void) { yield_to_sched(Y_READY); }
 
+#if !defined(LK_STANDALONE_RC)
+/* scheduling points inside real API functions */
+static int post_lock_gate[MAXT], pre_unlock_gate[MAXT];
+#if LK_ON
+#if COAP_THREAD_RECURSIVE_CHECK
+int __real_coap_lock_lock_func(const char *file, int line);
+void __real_coap_lock_unlock_func(const char *file, int line);
+int __wrap_coap_lock_lock_func(const char *file, int line) {
+  int r = __real_coap_lock_lock_func(file, line);
+  if (cur >= 0 && post_lock_gate[cur]) { post_lock_gate[cur] = 0; gate(); }
+  return r;
+}
+void __wrap_coap_lock_unlock_func(const char *file, int line) {
+  if (cur >= 0 && pre_unlock_gate[cur]) { pre_unlock_gate[cur] = 0; gate(); }
+  __real_coap_lock_unlock_func(file, line);
+}
+#else
+int __real_coap_lock_lock_func(void);
+void __real_coap_lock_unlock_func(void);
+int __wrap_coap_lock_lock_func(void) {
+  int r = __real_coap_lock_lock_func();
+  if (cur >= 0 && post_lock_gate[cur]) { post_lock_gate[cur] = 0; gate(); }
+  return r;
+}
+void __wrap_coap_lock_unlock_func(void) {
+  if (cur >= 0 && pre_unlock_gate[cur]) { pre_unlock_gate[cur] = 0; gate(); }
+  __real_coap_lock_unlock_func();
+}
+#endif
+#endif
+static coap_context_t *real_ctx;
+static const char *ev_prog[MAXT];     /* where the running E(...) of each thread continues */
+static const char *run_calls(const char *p);
+static int ev_handler(coap_session_t *session, const coap_event_t event) {
+  int me = cur;
+  (void)session;
+  (void)event;
+  if (me < 0) return 0;               /* not one of ours (context set-up) */
+  /* entered right after in_callback++ ; the nested calls gate themselves */
+  ev_prog[me] = run_calls(ev_prog[me]);
+  gate();                             /* scheduling point before in_callback-- */
+#if LK_ON
+  pre_unlock_gate[me] = 1;            /* ... and one between in_callback-- and the unlock */
+#else
+  gate();                             /* no lock code at all: keep the step count of C(K()) */
+#endif
+  return 0;
+}
+#endif
+
 static const char *run_calls(const char *p);
 
 static int dummy_ret;
@@ -147,14 +216,31 @@ static const char *run_items(const char *p) {
    transcription of every COAP_API wrapper: coap_lock_lock(c, return); X_lkd(); coap_lock_unlock(c)
    (tools/regen_lock.py checks on every run that all COAP_API functions have this shape) */
 static const char *run_calls(const char *p) {
-  while (*p == 'C') {
-    p += 2;
-    gate();
-    coap_lock_lock(lkctx, abort());
-    p = run_items(p);
-    gate();
-    coap_lock_unlock(lkctx);
-    p++;
+  while (*p == 'C' || *p == 'E') {
+    if (*p == 'C') {
+      p += 2;
+      gate();
+      coap_lock_lock(lkctx, abort());
+      p = run_items(p);
+      gate();
+      coap_lock_unlock(lkctx);
+      p++;
+    } else {
+#if !defined(LK_STANDALONE_RC)
+      int me = cur;
+      gate();                           /* the step of the wrapper's coap_lock_lock_func */
+#if LK_ON
+      post_lock_gate[me] = 1;           /* next step: in_callback++ of coap_lock_callback_ret */
+#else
+      gate();
+#endif
+      ev_prog[me] = p + 2;
+      coap_handle_event(real_ctx, COAP_EVENT_BAD_PACKET, NULL);
+      p = ev_prog[me] + 1;
+#else
+      abort();                          /* E() needs the linked library */
+#endif
+    }
   }
   return p;
 }
@@ -233,6 +319,9 @@ static void run_case(void) {
     thr[i].prog = vtok[2 + i];
     thr[i].done = 0;
     thr[i].in_work = 0;
+#if !defined(LK_STANDALONE_RC)
+    post_lock_gate[i] = pre_unlock_gate[i] = 0;
+#endif
     if (!thr[i].stack) thr[i].stack = (char *)malloc(STACKSZ);
     getcontext(&thr[i].ctx);
     thr[i].ctx.uc_stack.ss_sp = thr[i].stack;
@@ -287,8 +376,17 @@ static void run_case(void) {
 
 int main(void) {
   setvbuf(stdout, NULL, _IOLBF, 0);
+#ifdef LK_STANDALONE_RC
+  coap_lock_init();
+#else
   coap_startup();
+#endif
   lkctx = (coap_context_t *)&lkctx;   /* never dereferenced by the lock macros */
+#if !defined(LK_STANDALONE_RC)
+  real_ctx = coap_new_context(NULL);
+  if (!real_ctx) { printf("ERROR no context\n"); return 2; }
+  coap_register_event_handler(real_ctx, ev_handler);
+#endif
   while (next_case(stdin)) {
     if (vntok == 0) { printf("\n"); continue; }
     if (strcmp(vtok[0], "lk") == 0) {
@@ -298,7 +396,11 @@ int main(void) {
 #ifdef COAP_THREAD_SAFE
       ifdef = 1;
 #endif
+#ifdef LK_STANDALONE_RC
+      printf("supported=-1 macro=%d ifdef=%d rc=%d\n", LK_ON, ifdef, COAP_THREAD_RECURSIVE_CHECK + 0);
+#else
       printf("supported=%d macro=%d ifdef=%d\n", coap_threadsafe_is_supported(), LK_ON, ifdef);
+#endif
     } else {
       printf("ERROR unknown command\n");
     }
